@@ -4,6 +4,7 @@ import Proofs.Lemmas.ReqLimit
 import Proofs.Lemmas.ReqReg
 import Proofs.Lemmas.ReqIC
 import Proofs.Lemmas.ReqCap
+import Proofs.Lemmas.ReqOut
 import Generated.C11Superglobals
 /-!
 # C11 — concurrent HTTP requests do not interfere: a response depends on its request
@@ -836,6 +837,107 @@ example : Model.ReqCap.bindsPrivate (capWorld .obj true capStore) = true ∧
   decide
 
 end Capture
+
+/-! ## Script output and the process-wide output hook (round 8)
+
+`echo` writes through ONE hook for the whole process.  `Model.ReqOut` has the request path's discipline as
+a parameter: `direct` (the pinned tree: the request path never touches the hook) and `swap` (a request points
+the hook at its own body on entry and puts the PREVIOUS value back on exit — mutex or not).  What the outside
+attributes to a request (`attributed`: its body, then what stdout received from it) must be what its own code
+wrote (`Spec.ReqOut.echoes`), whatever else is in flight. -/
+section Output
+open Model.ReqOut
+
+/-- `direct`: for EVERY trace (any number of requests, any interleaving) a request is attributed exactly
+what it wrote, nothing reaches a body, and that is what it is attributed when it runs alone. -/
+theorem C11_output_direct_isolation (t : List Ev) (r : Nat) :
+    attributed (Model.ReqOut.run .direct Model.ReqOut.init t) r = Spec.ReqOut.echoes r t ∧
+    (Model.ReqOut.run .direct Model.ReqOut.init t).body r = [] ∧
+    attributed (Model.ReqOut.run .direct Model.ReqOut.init t) r = attributed (Model.ReqOut.run .direct Model.ReqOut.init (Spec.ReqOut.own r t)) r := by
+  have h := Proofs.ReqOut.direct_run t Model.ReqOut.init rfl
+  have h' := Proofs.ReqOut.direct_run (Spec.ReqOut.own r t) Model.ReqOut.init rfl
+  have hb : (Model.ReqOut.run .direct Model.ReqOut.init t).body r = [] := by rw [h.2.1]; rfl
+  have hb' : (Model.ReqOut.run .direct Model.ReqOut.init (Spec.ReqOut.own r t)).body r = [] := by rw [h'.2.1]; rfl
+  have hp := h.2.2 r
+  have hp' := h'.2.2 r
+  have h0 : proj r Model.ReqOut.init.stdout = [] := rfl
+  rw [h0, List.nil_append] at hp hp'
+  have ha : attributed (Model.ReqOut.run .direct Model.ReqOut.init t) r = Spec.ReqOut.echoes r t := by
+    unfold attributed
+    rw [hb, hp, List.nil_append]
+  refine ⟨ha, hb, ?_⟩
+  rw [ha]
+  unfold attributed
+  rw [hb', hp', List.nil_append, Proofs.ReqOut.echoes_own]
+
+/-- `swap` is right for well-nested traces (a request parks, others run start-to-finish inside, it resumes):
+every body is what its request wrote and stdout receives nothing — which is why "park one, run another to
+completion" sees nothing. -/
+theorem C11_output_swap_nested (t : List Ev) (h : nested [] t = true) (r : Nat) :
+    attributed (Model.ReqOut.run .swap Model.ReqOut.init t) r = Spec.ReqOut.echoes r t ∧ (Model.ReqOut.run .swap Model.ReqOut.init t).stdout = [] := by
+  have hc : Proofs.ReqOut.Chain Model.ReqOut.init.saved [] Model.ReqOut.init.cur := rfl
+  obtain ⟨h1, h2⟩ := Proofs.ReqOut.swap_nested t [] Model.ReqOut.init hc h
+  have hs : (Model.ReqOut.run .swap Model.ReqOut.init t).stdout = [] := by rw [h1]; rfl
+  refine ⟨?_, hs⟩
+  have hb := h2 r
+  have h0 : Model.ReqOut.init.body r = [] := rfl
+  rw [h0, List.nil_append] at hb
+  unfold attributed
+  rw [hs, hb]
+  simp [proj]
+
+/-- the overlapped trace A-start, B-start, A-echo, A-stop, B-echo, B-stop (not nested): A's output lands in
+B's body, A's exit puts stdout back under B, whose later output leaves the response, and the hook is left
+pointing at the finished A; alone B is attributed `[8]`. -/
+theorem C11_output_overlap_leaks :
+    let t : List Ev := [.start 0, .start 1, .echo 0 7, .stop 0, .echo 1 8, .stop 1]
+    nested [] t = false ∧
+    (Model.ReqOut.run .swap Model.ReqOut.init t).body 1 = [7] ∧ (Model.ReqOut.run .swap Model.ReqOut.init t).body 0 = [] ∧
+    (Model.ReqOut.run .swap Model.ReqOut.init t).stdout = [(1, 8)] ∧ (Model.ReqOut.run .swap Model.ReqOut.init t).cur = some 0 ∧
+    attributed (Model.ReqOut.run .swap Model.ReqOut.init t) 1 = [7, 8] ∧
+    attributed (Model.ReqOut.run .swap Model.ReqOut.init (Spec.ReqOut.own 1 t)) 1 = [8] ∧
+    attributed (Model.ReqOut.run .direct Model.ReqOut.init t) 1 = [8] := by
+  decide
+
+/-- a discipline isolates the output of every request under every trace IFF it leaves the process-wide hook
+alone. -/
+theorem C11_output_isolated_iff (d : Discipline) :
+    (∀ (t : List Ev) (r : Nat), attributed (Model.ReqOut.run d Model.ReqOut.init t) r = Spec.ReqOut.echoes r t) ↔ d = .direct := by
+  constructor
+  · intro h
+    cases d with
+    | direct => rfl
+    | swap =>
+      have h1 := h [.start 0, .start 1, .echo 0 7, .stop 0, .echo 1 8, .stop 1] 1
+      exact absurd h1 (by decide)
+  · intro h; subst h
+    intro t r
+    exact (C11_output_direct_isolation t r).1
+
+/-- not vacuous: the solo run of the witness is nested, the witness is not -/
+theorem C11_output_isolation_counterexample :
+    nested [] (Spec.ReqOut.own 1 [.start 0, .start 1, .echo 0 7, .stop 0, .echo 1 8, .stop 1]) = true ∧
+    nested [] [.start 0, .start 1, .echo 1 8, .stop 1, .echo 0 7, .stop 0] = true ∧
+    attributed (Model.ReqOut.run .swap Model.ReqOut.init [.start 0, .start 1, .echo 1 8, .stop 1, .echo 0 7, .stop 0]) 0 = [7] := by
+  decide
+
+/-- Obligation on the regenerated facts + instance: the only stores into another package's package-level
+variable made by per-request or per-call code are the known ones of the `ob_*` family (finding
+`output:ob-shared-buffer`); none is in `std/net/http`, so the request path's discipline is `direct` and every
+request is attributed exactly what it wrote under every trace. -/
+theorem C11_output_generated :
+    (Generated.C11Superglobals.facts.hookViolations.all fun v => Model.Req.knownHookViolations.contains v) = true ∧
+    disciplineOf Generated.C11Superglobals.facts = .direct ∧
+    ∀ (t : List Ev) (r : Nat),
+      attributed (Model.ReqOut.run (disciplineOf Generated.C11Superglobals.facts) Model.ReqOut.init t) r = Spec.ReqOut.echoes r t := by
+  have hv : (Generated.C11Superglobals.facts.hookViolations.all fun v => Model.Req.knownHookViolations.contains v) = true := by
+    decide
+  have hd : disciplineOf Generated.C11Superglobals.facts = .direct := by decide
+  refine ⟨hv, hd, ?_⟩
+  rw [hd]
+  exact (C11_output_isolated_iff .direct).2 rfl
+
+end Output
 
 /-! ## Non-vacuity -/
 
